@@ -101,7 +101,11 @@ def step (d : DState) (opLine : String) (impl : String) : DState × StepOut :=
             (dcs.splitOn ",").filterMap (fun dc =>
               if dc.isEmpty then none else
               let sfx := sfxOf t (natArg dc)
-              if sfx < 2 ^ natArg b then none
+              -- a dc-location in use that should have its own suffix by now (the model's table has one) but
+              -- has none in the persisted table shares somebody else's
+              if sfx = 0 ∧ sfxOf s'.table (natArg dc) ≠ 0 then
+                some s!"sig=C05.dc-in-use-without-own-suffix dc={dc} table={tableStr t}"
+              else if sfx < 2 ^ natArg b then none
               else some s!"sig=C05.suffix-width-too-small bits={b} dc={dc} suffix={sfx}")
           | _ => []
         | none => []
@@ -138,6 +142,24 @@ def step (d : DState) (opLine : String) (impl : String) : DState × StepOut :=
             [s!"sig=C01.global-tso-answer-for-a-refused-request alloc={a} count={c} physical={ms}"]
           | _ => []
         (d, { model := s!"err | {viewStr d.proto}", fails := fails })
+    | ["reqfail", a, _] =>
+      -- a global request the code has to refuse (the local allocators are further ahead than the reset gap allows
+      -- the global memory to jump): what the memories are afterwards is an input; an answer is judged by the monitor
+      let a := natArg a
+      match words ((impl.splitOn " | ").getLast?.getD "") with
+      | [g, l1, l2] =>
+        let st : St := { d.proto with glob := parsePair g, req := none,
+                                      loc := fun i => if i = 1 then parsePair l1 else if i = 2 then parsePair l2 else d.proto.loc i }
+        let (mon', fails) : Mon × List String :=
+          match words ((impl.splitOn " | ").headD "") with
+          | ["ts", ms, l, _] =>
+            let e : C05.Ev := ⟨a, natArg ms, natArg l, d.mon.idx, d.mon.idx⟩
+            let evs := d.mon.evs ++ [e]
+            ({ d.mon with evs := evs, idx := d.mon.idx + 1 },
+              if C05.check evs then [] else [s!"sig=C05.order-or-uniqueness-after-failed-attempts alloc={a} ms={e.ms} logical={e.logical}"])
+          | _ => ({ d.mon with idx := d.mon.idx + 1 }, [])
+        ({ d with proto := st, mon := mon' }, { model := s!"{(impl.splitOn " | ").headD ""} | {viewStr st}", fails := fails })
+      | _ => (d, { model := "bad-op" })
     | "lrestart" :: _ =>
       -- every local allocator is re-elected: what its memory is afterwards is an input (C01–C03 territory),
       -- but it must not be below what it was (nor, by the monitor on later grants, below an earlier global)
